@@ -135,3 +135,13 @@ Example C12_nonvacuous :
   | _ => False
   end.
 Proof. vm_compute. repeat split. Qed.
+
+(* the hypothesis "hostText = ipFuture when ipFuture is set" of mwf is needed for the erasure clause of
+   C12_make_owner: the engine (like the C code) re-derives hostText from the ipFuture range *)
+Example C12_host_range_needed :
+  let m := {| m_scheme := mt_none; m_userInfo := mt_none; m_hostText := mt_borrowed [121]; m_ip4 := None; m_ip6 := None;
+              m_ipFuture := mt_borrowed [120]; m_portText := mt_none; m_segs := []; m_query := mt_none;
+              m_fragment := mt_none; m_abs := false; m_owner := false |} in
+  let '(rc, m', _) := make_owner_m 1 m (ms_init NoFault) in
+  rc = URI_SUCCESS /\ hostText (erase m) = Some [121] /\ hostText (erase m') = Some [120].
+Proof. vm_compute. repeat split. Qed.
